@@ -1,11 +1,46 @@
-"""C15 — rules not implemented yet (fail closed)."""
-EXPLANATION = "not implemented"
-NOT_DECIDED = "everything"
+"""C15 — the outcome of load() does not depend on earlier loads on the same dataset."""
+from __future__ import annotations
+
+from . import io_rules as io
+from . import io_rules2 as io2
+from . import loader_rules as lr
+
+EXPLANATION = (
+    "Static rules on the state that survives between load() calls (the Loader, its reader objects and the shared meta dict): "
+    "(R1) definite reset: every reader attribute that Loader.load reads without an `initialized` guard (computed from the "
+    "AST: today readers['amr'].cpu_list) is assigned on EVERY path through the corresponding initialize(); (R2) per-call "
+    "re-initialisation: `self.initialized = False` is the first effect of every reader's initialize, the off-switch returns "
+    "before anything else, descriptor_to_variables replaces every record with a fresh one (empty pieces); (R3) shared meta: "
+    "meta['lmax'] is assigned unconditionally at the start of every load, ncells/nparticles are reset on the paths that can "
+    "accumulate and the other paths cannot accumulate (lmax = 0, cpu_list = []); (R4) per-file reset of offsets and bytes "
+    "before the header is read (protocol skeleton); (R5) returned groups replace stored ones; outputs and selections are "
+    "rebuilt per call; (R6) all mesh readers share one activation guard.")
+NOT_DECIDED = ("equality with a fresh dataset as data (follows if no state leaks: the rules enumerate the state that exists today; "
+               "a new attribute read by load() without a guard is picked up by R1 automatically)")
+TRUSTED = ("CPython ast",)
+TECHNIQUE = "static analysis: definite-assignment on all paths, dominance/ordering rules on the shared state"
 
 
-def not_implemented(run, tree):
-    run.rule("C15.R0", "stub")
-    run.unresolved("stub", "", "rules for C15 are not implemented yet")
+def r1(run, tree):
+    run.rule("C15.R1", "definite reset of consulted reader state", "definite assignment over all paths", "", floor=1)
+    lr.check_definite_reset(run, tree)
 
 
-RULES = [not_implemented]
+def r2(run, tree):
+    run.rule("C15.R2", "per-call re-initialisation of every reader", "path rule", "", floor=10)
+    lr.check_reinitialisation(run, tree)
+    io2.check_descriptor_to_variables(run, tree)
+
+
+def r3(run, tree):
+    run.rule("C15.R3", "shared meta reset; groups replaced; per-call containers", "dominance", "", floor=8)
+    lr.check_counters(run, tree)
+
+
+def r4(run, tree):
+    run.rule("C15.R4", "per-file reset (protocol skeleton)", "protocol extraction", "", floor=10)
+    io.check_skeleton(run, tree)
+    io2.check_inactive_readers(run, tree)
+
+
+RULES = [r1, r2, r3, r4]
